@@ -39,10 +39,6 @@ Quoted == <<FALSE, TRUE>>      \* ... of a quoted or block scalar
 HRes(s) == H!Meaning(s)
 LRes(s) == L!Load(s, Plain)
 
-\* microseconds denoted by a fraction: H leaves truncation or rounding open
-Pad6(fr) == IF Len(fr) >= 6 THEN SubSeq(fr, 1, 6) ELSE fr \o [i \in 1 .. 6 - Len(fr) |-> 0]
-FracLo(fr) == NatOf(Pad6(fr))
-FracHi(fr) == IF \E i \in 7 .. Len(fr) : fr[i] # 0 THEN FracLo(fr) + 1 ELSE FracLo(fr)
 TzAgree(htz, ltz) ==
   CASE htz[1] = "none" -> ltz = <<"none">>
     [] htz[1] = "utc"  -> ltz = <<"utc">>
@@ -53,7 +49,7 @@ ValAgree(hv, lv) ==
     [] hv[1] = "float" -> IF hv[2] = "num" THEN Len(lv) = 3 /\ lv[1] = "float" /\ lv[2] = "num" /\ lv[3] = hv[3]
                                            ELSE lv = hv
     [] hv[1] = "datetime" -> /\ lv[1] = "datetime" /\ SubSeq(lv, 2, 7) = SubSeq(hv, 2, 7)
-                             /\ FracLo(hv[8]) <= lv[8] /\ lv[8] <= FracHi(hv[8]) /\ TzAgree(hv[9], lv[9])
+                             /\ lv[8] = hv[8] /\ TzAgree(hv[9], lv[9])
     [] hv[1] \in {"merge", "value"} -> lv = <<"ConstructorError", hv[1]>>     \* SafeConstructor has no such constructor
     [] OTHER -> FALSE
 
